@@ -25,6 +25,8 @@ def units_A(tier):
     u("C05.Var.VarClear.badtype", "h_VarClear", "VarClear", replace=["VarInit"], defines=["VERIF_BADTYPE", "NDEBUG"], expect=("postcondition",))
     u("C05.Var.VarAllocString", "h_VarAllocString", "VarAllocString", unwind=maxn + 2,
       bounded={"strings_shorter_than": maxn, "how": "--unwind %d --unwinding-assertions on strlen/strcpy" % (maxn + 2)})
+    u("C05.Var.VarAllocString.when_allocation_succeeds", "h_VarAllocString", "VarAllocString", unwind=maxn + 2, defines=["VERIF_ALLOC_OK"], cbmc_flags=["--no-malloc-may-fail"],
+      bounded={"strings_shorter_than": maxn, "how": "--unwind %d --unwinding-assertions on strlen/strcpy; --no-malloc-may-fail" % (maxn + 2)})
     u("C05.Var.VarCopy.dest_nonstring", "h_VarCopy", "VarCopy", replace=["VarAllocString"],
       bounded={"source_strings_shorter_than": maxn, "how": "callee VarAllocString by contract; its contract quantifies over strings shorter than VERIF_MAXN"})
     u("C05.Var.VarCopy.dest_string", "h_VarCopy", "VarCopy", replace=["VarAllocString"], defines=["VERIF_CASE_STRING"],
